@@ -146,6 +146,7 @@ func (s Manifest) validate() error {
 	}
 
 	seenGraphs := map[string]struct{}{}
+	seenFiles := map[string]struct{}{}
 	for _, graphEntry := range s.Graphs {
 		if graphEntry.Name == "" {
 			return fmt.Errorf("manifest graph entry has empty name")
@@ -164,6 +165,12 @@ func (s Manifest) validate() error {
 			if fileEntry.Path == "" {
 				return fmt.Errorf("manifest graph %q contains empty file path", graphEntry.Name)
 			}
+
+			if _, seen := seenFiles[fileEntry.Path]; seen {
+				return fmt.Errorf("manifest lists file %q more than once", fileEntry.Path)
+			}
+
+			seenFiles[fileEntry.Path] = struct{}{}
 
 			switch fileEntry.Phase {
 			case PhaseNodes:
